@@ -4,7 +4,7 @@
    base64 (StdEncoding, padded).  They are what oj.ParseString / oj.JSON / encoding/base64 do on
    the documents the generator builds; the comparison with the implementation is made on the
    canonical re-rendering of every nested document (sorted keys), see tools/fam/kfltext.py. *)
-Require Import V.Base.Prelude V.KflText.Macro V.KflText.Redact.
+Require Import V.Base.Prelude V.KflText.Macro V.KflText.RJv V.KflText.Redact.
 Local Open Scope bool_scope.
 Local Open Scope N_scope.
 
